@@ -100,6 +100,23 @@ def run(ctx):
                 ctx.known(f["id"], f["what"])
             else:
                 ctx.notes.append(f"finding {f['id']}: its site is no longer in the source tree (stale entry?)")
+    # the same model and seed in a worker process (ParallelRunner.run_replicas / run_sweep) and in this process
+    try:
+        pr = subprocess.run(["/venv/bin/python", "-W", "ignore", "-m", "scenarios.replica_models"], capture_output=True, text=True,
+                            timeout=600, env=env_for("0"), cwd="/verif/harness")
+        rep = json.loads(pr.stdout.strip().splitlines()[-1])
+    except Exception as e:  # noqa: BLE001
+        rep = None
+        ctx.violation("harness-error", dict(what="scenarios.replica_models did not run", error=f"{type(e).__name__}: {e}"[:300]), no_failing_input=True)
+    for r in rep or []:
+        for how in ("replicas", "sweep"):
+            bad = [i for i, (a, b) in enumerate(zip(r["in_process"], r[how])) if a != b]
+            if bad or len(r[how]) != len(r["in_process"]):
+                ctx.violation("oracle", dict(family="replicas", case=dict(model="scenarios.replica_models.build_router_sim", base_seed=r["base_seed"], via=how),
+                                             failure=dict(clause="the same model and seed give the same run in a worker process as in this process",
+                                                          seeds=[r["base_seed"] + i for i in bad], in_process=[r["in_process"][i] for i in bad][:2],
+                                                          worker=[r[how][i] for i in bad][:2])))
+    ctx.coverage["replica_runs"] = sum(2 * len(r["in_process"]) for r in rep or [])
     from scenarios import runner
     names = sorted(runner.builders())
     if ctx.quick:
@@ -152,6 +169,13 @@ def run(ctx):
 
 def replay(data):
     c = data["detail"]["case"]
+    if "model" in c:
+        pr = subprocess.run(["/venv/bin/python", "-W", "ignore", "-m", "scenarios.replica_models"], capture_output=True, text=True,
+                            timeout=600, env=env_for("0"), cwd="/verif/harness")
+        rep = json.loads(pr.stdout.strip().splitlines()[-1])
+        bad = [(r["base_seed"], how) for r in rep for how in ("replicas", "sweep") if r[how] != r["in_process"]]
+        print("differing:", bad)
+        return 1 if bad else 0
     if "witness" in c:
         outs = {hs: run_witness(c["witness"], hs) for hs in ("0", "1", "2")}
         print(outs)
